@@ -423,9 +423,36 @@ def fact_matches(rx_, fact):
     return re.search(rx_, show_fact((atom, True))) is not None
 
 
-def any_fact(rx_, facts):
+_REGEX_WORDS = {"self", "len", "not", "is", "Some", "None", "as", "usize", "data", "Range", "start", "end"}
+
+
+def relax_renamed(rx_, func):
+    """identifiers of the pattern that are not (or no longer) names of locals of `func` may be locals that were renamed since the entry was
+    written: let them match any local name.  Field names, paths and call names are untouched (they follow `.` / `::` or precede `(`)."""
+    if func is None:
+        return None
+    names = set(re.sub(r"~\d+$", "", n) for n in func.body.names.values())
+
+    def sub(m):
+        w = m.group(1)
+        if w in names or w in _REGEX_WORDS or len(w) < 3:
+            return m.group(0)
+        return r"\w+(?:~\d+)?"
+    out = re.sub(r"(?<![\w.:\\])([a-z_][a-z0-9_]{2,})(?![\w(]|::|\\\()", sub, rx_)
+    return out if out != rx_ else None
+
+
+def any_fact(rx_, facts, func=None):
     """alternatives separated by ' || ' (each may carry its own '!')"""
-    return any(fact_matches(alt, f) for alt in rx_.split(" || ") for f in facts)
+    if any(fact_matches(alt, f) for alt in rx_.split(" || ") for f in facts):
+        return True
+    rel = relax_renamed(rx_, func)
+    if rel is not None:
+        try:
+            return any(fact_matches(alt, f) for alt in rel.split(" || ") for f in facts)
+        except re.error:
+            return False
+    return False
 
 
 def check_requires(ctx, prog, reqs, site=None):
@@ -438,7 +465,7 @@ def check_requires(ctx, prog, reqs, site=None):
                 continue
             f = site.func
             fl = _flow_cache.setdefault(f.path, Flow(f.body))
-            if not any_fact(rq[1], fl.facts_at(site.bb)):
+            if not any_fact(rq[1], fl.facts_at(site.bb), f):
                 probs.append("site no longer dominated by /%s/ (facts here: %s)" % (rq[1], "; ".join(show_fact(x) for x in fl.facts_at(site.bb))[:200]))
             continue
         key = repr(rq)
@@ -461,7 +488,7 @@ def _check_one(ctx, prog, rq):
         for blk in f.body.blocks:
             if blk.term.k == "switch" and not blk.cleanup:
                 for k in range(len(blk.term.targets) + 1):
-                    if any_fact(rx_, fl.edge_facts(("e", blk.i, k))):
+                    if any_fact(rx_, fl.edge_facts(("e", blk.i, k)), f):
                         return None
         return "guard /%s/ not found in %s" % (rx_, fp.split("::")[-1])
     if kind == "dom_ok":
@@ -475,7 +502,7 @@ def _check_one(ctx, prog, rq):
         if not oks:
             return "no Ok return in %s" % fp
         for bb, e in oks:
-            if not any_fact(rx_, fl.facts_at(bb)):
+            if not any_fact(rx_, fl.facts_at(bb), f):
                 return "an Ok return of %s is not dominated by /%s/" % (fp.split("::")[-1], rx_)
         return None
     if kind == "constructed_in":
@@ -500,7 +527,7 @@ def _check_one(ctx, prog, rq):
         if not ss:
             return "no call matching /%s/ in %s" % (crx, fp.split("::")[-1])
         for s in ss:
-            if not any_fact(rx_, fl.facts_at(s.bb)):
+            if not any_fact(rx_, fl.facts_at(s.bb), f):
                 return "call %s in %s not dominated by /%s/" % (model.short_callee(s.term.callee_path()), fp.split("::")[-1], rx_)
         return None
     if kind == "site_dom_assume":
@@ -526,7 +553,7 @@ def _check_one(ctx, prog, rq):
         for s_ in ss:
             if ("b", s_.bb) not in fl.reachable_nodes():
                 continue
-            if not any_fact(rx_, fl.facts_at(s_.bb)):
+            if not any_fact(rx_, fl.facts_at(s_.bb), f):
                 return "call %s in %s not dominated by /%s/ (assuming /%s/)" % (model.short_callee(s_.term.callee_path()), fp.split("::")[-1], rx_, arx)
         return None
     if kind == "field_assign_dom":
